@@ -253,8 +253,18 @@ BT = {
 }
 for op, (props, d) in BT.items():
     ob("btcp." + op.lower(), "btcp/btcp.c", ["-DOP_" + op], props, unwind=20, unwindset=["memcmp.0:50"], link=BTCP_LINK, desc=d)
+# what each stored-value getter must report (C11); getters of kernel statistics (tcp.rtt ...) have no stored value
+BTCP_SEM = {"get_scope_attr": ["-DSEM_T=int64_t", "-DSEM_V=BTS->scope", "-DSEM_HAS=(BTS->scope>=0)", "-DSEM_ANYTYPE"],
+            "get_keepalive_attr": ["-DSEM_T=bool", "-DSEM_V=BTS->conn.tcp_opts.keepalive", "-DSEM_HAS=1"],
+            "get_keepalive_time_attr": ["-DSEM_T=int64_t", "-DSEM_V=BTS->conn.tcp_opts.keepalive_time", "-DSEM_HAS=1"],
+            "get_keepalive_interval_attr": ["-DSEM_T=int64_t", "-DSEM_V=BTS->conn.tcp_opts.keepalive_interval", "-DSEM_HAS=1"],
+            "get_keepalive_count_attr": ["-DSEM_T=int64_t", "-DSEM_V=BTS->conn.tcp_opts.keepalive_count", "-DSEM_HAS=1"],
+            "get_user_timeout_attr": ["-DSEM_T=int64_t", "-DSEM_V=BTS->conn.tcp_opts.user_timeout", "-DSEM_HAS=1"],
+            "get_tcp_connect_timeout_attr": ["-DSEM_T=double", "-DSEM_V=BTS->conn.tcp_connect_timeout", "-DSEM_HAS=(BTS->conn.tcp_connect_timeout>=0)"],
+            "get_dns_timeout_attr": ["-DSEM_T=double", "-DSEM_V=BTS->conn.dns_opts.timeout", "-DSEM_HAS=(!BTS->conn.dns_opts.timeout_disabled)"],
+            "get_dns_algorithm_attr": ["-DSEM_STR=tconnect_algorithm_str(BTS->conn.dns_algorithm)", "-DSEM_HAS=(BTS->conn.dns_algorithm!=tconnect_algorithm_none)"]}
 for (g, sfn, t) in extract_attrs("libxcm/tp/tcp/xcm_tp_btcp.c"):
-    ob("btcp.getter." + g, "btcp/btcp.c", ["-DOP_GETTER", "-DGETTER=" + g, "-DGSIZE=%d" % GSIZE.get(t, 0)], ["C10"], unwind=30, unwindset=["memcmp.0:50"], link=BTCP_LINK,
+    ob("btcp.getter." + g, "btcp/btcp.c", ["-DOP_GETTER", "-DGETTER=" + g, "-DGSIZE=%d" % GSIZE.get(t, 0)] + BTCP_SEM.get(g, []), ["C10"] + (["C11"] if g in BTCP_SEM else []), unwind=30, unwindset=["memcmp.0:50"], link=BTCP_LINK,
        desc="real getter %s (%s) from any socket state, every capacity the attribute tree can pass: never writes past capacity, length exact" % (g, t))
 for op, d in (("CONNECT", "btcp_connect (address parse, tconnect_create, xcm_dns_resolve, connect start, first establishment step each failing at will; remote by name or number)"),
               ("SERVER", "btcp_server (parse, synchronous resolution, socket, DSCP/REUSEADDR setsockopt, getsockname, scope, bind, listen each failing at will)"),
